@@ -38,6 +38,7 @@ THEOREMS = [
     "Typedpy.C12.derive_raises_iff",
     "Typedpy.C12.derive_flags_not_copied",
     "Typedpy.C12.flags_example",
+    "Typedpy.C12.fixed_inherited_default_not_required",
     "Typedpy.reachable_good",
     "Typedpy.reachable_hasStructure",
     "Typedpy.c12_derive_total",
@@ -54,7 +55,9 @@ RULE = ("source classes from hierarchies of 1..5 classes (mutable, ImmutableStru
         "unknown names; the names argument of Omit / Pick passed as tuple, list, set, frozenset, dict keys view, generator "
         "expression, iter(list), filter / map object or a bare one-character str), derived classes further extended by subclassing with new / redeclared fields and derived "
         "again; per retained field a shared value stream (valid, boundary neighbours, type confusion, None) on source "
-        "vs derived; non-trivial = >= 2 class-creating statements; distinct by sha256 of the case line")
+        "vs derived; every source / derived / extending class is rendered through the bridge (FieldDecl.struct vs the real "
+        "class) and constructed from 6 keyword lists through the constructor and the other entry points; "
+        "non-trivial = >= 2 class-creating statements; distinct by sha256 of the case line")
 ASSUMPTIONS = [
     "class identity is the class name (fresh names per case); defaults are not None",
     "None is compared on a retained field only where the documented requiredness of that field agrees in source and derived",
